@@ -23,12 +23,12 @@ DESCRIPTION = {
 def plan(tier, seed):
     q = tier == "quick"
     jobs = [
-        {"func": "cra", "name": "cra", "args": {"seed": seed * 1000 + 1, "n": 1500 if q else 10000}},
-        {"func": "totp", "name": "totp", "args": {"seed": seed * 1000 + 2, "n": 2000 if q else 20000}},
-        {"func": "scram", "name": "scram/argon", "args": {"seed": seed * 1000 + 3, "n": 200 if q else 1500, "kdf": "argon2id-13"}},
-        {"func": "scram", "name": "scram/pbkdf2", "args": {"seed": seed * 1000 + 4, "n": 200 if q else 1500, "kdf": "pbkdf2"}},
-        {"func": "cryptosign", "name": "cryptosign/tx", "fw": "twisted", "args": {"seed": seed * 1000 + 5, "n": 500 if q else 5000}},
-        {"func": "cryptosign", "name": "cryptosign/aio", "fw": "asyncio", "args": {"seed": seed * 1000 + 6, "n": 500 if q else 5000}},
+        {"func": "cra", "name": "cra", "args": {"seed": seed * 1000 + 1, "n": 1500 if q else 30000}},
+        {"func": "totp", "name": "totp", "args": {"seed": seed * 1000 + 2, "n": 2000 if q else 60000}},
+        {"func": "scram", "name": "scram/argon", "args": {"seed": seed * 1000 + 3, "n": 200 if q else 4000, "kdf": "argon2id-13"}},
+        {"func": "scram", "name": "scram/pbkdf2", "args": {"seed": seed * 1000 + 4, "n": 200 if q else 4000, "kdf": "pbkdf2"}},
+        {"func": "cryptosign", "name": "cryptosign/tx", "fw": "twisted", "args": {"seed": seed * 1000 + 5, "n": 500 if q else 15000}},
+        {"func": "cryptosign", "name": "cryptosign/aio", "fw": "asyncio", "args": {"seed": seed * 1000 + 6, "n": 500 if q else 15000}},
     ]
     if not q:
         for k in range(4):
